@@ -228,4 +228,24 @@ after the first answer -/
 def plainEvents (user pass : Bytes) (brokerAnswer : Env) : List Env :=
   [.mechStart (some (plainStart user pass)), brokerAnswer, .mechNext (some (plainNext []))]
 
+/-! ### SCRAM adaptor (`sasl/scram/scram.go`) over an abstract conversation
+
+The cryptography lives in the dependency xdg-go/scram; the library's own code is the adaptor: `Start` performs the
+conversation's first `Step("")`, `Next` performs `Step(challenge)` and reports `Done()`.  A conversation is any state
+machine with a step function (new state, output, failed?) and a `done` flag. -/
+
+structure Conv (σ : Type) where
+  step : σ → Bytes → σ × Bytes × Bool
+  done : σ → Bool
+
+/-- `(*mechanism).Start`: the `mechStart` environment event the adaptor contributes -/
+def scramStart {σ : Type} (cv : Conv σ) (s0 : σ) : σ × Option Bytes :=
+  let r := cv.step s0 []
+  (r.1, if r.2.2 then none else some r.2.1)
+
+/-- `(*session).Next`: the `mechNext` environment event the adaptor contributes -/
+def scramNext {σ : Type} (cv : Conv σ) (s : σ) (challenge : Bytes) : σ × Option (Bool × Bytes) :=
+  let r := cv.step s challenge
+  (r.1, if r.2.2 then none else some (cv.done r.1, r.2.1))
+
 end KV.Auth
